@@ -185,6 +185,101 @@ theorem gen_pow10 :
     (List.range 13).map (fun k => log10of 13 (10 ^ k)) = Gen.C13.log10OfPow10 ∧
     (List.range 16).map pow10 = Gen.C13.pow10Table := by decide
 
+/-! ### the WAL reader's buffer never follows the claimed length -/
+
+theorem growRead_inv (chunk fuel n p len cap : Nat) (h1 : len ≤ n) (h2 : len ≤ p)
+    (h3 : cap ≤ 2 * len + 3 * chunk) :
+    (growRead chunk fuel n p len cap).1 ≤ n ∧ (growRead chunk fuel n p len cap).1 ≤ p ∧
+    (growRead chunk fuel n p len cap).2 ≤ 2 * (growRead chunk fuel n p len cap).1 + 3 * chunk := by
+  induction fuel generalizing len cap with
+  | zero => simp [growRead]; omega
+  | succ fuel ih =>
+    unfold growRead
+    split
+    · exact ⟨h1, h2, h3⟩
+    · rename_i hlt
+      simp only
+      have hcap : (if cap - len < min (n - len) chunk then 2 * cap + min (n - len) chunk else cap)
+          ≤ 2 * len + 3 * chunk := by
+        split <;> omega
+      split
+      · refine ⟨by omega, by omega, by omega⟩
+      · apply ih
+        · omega
+        · omega
+        · omega
+
+/-- with enough fuel the read ends with exactly the bytes that could be read -/
+theorem growRead_len (chunk : Nat) (hc : 0 < chunk) (fuel n p len cap : Nat) (h1 : len ≤ n) (h2 : len ≤ p)
+    (hf : (n - len) / chunk + 2 ≤ fuel + 1) :
+    (growRead chunk fuel n p len cap).1 = min n p ∨ fuel = 0 := by
+  induction fuel generalizing len cap with
+  | zero => exact Or.inr rfl
+  | succ fuel ih =>
+    left
+    unfold growRead
+    split
+    · rename_i hge
+      have : len = n := by omega
+      subst this
+      simp only
+      omega
+    · rename_i hlt
+      simp only
+      split
+      · rename_i hshort
+        -- the reader ran dry
+        simp only
+        omega
+      · rename_i hfull
+        have hgot : min (min (n - len) chunk) (p - len) = min (n - len) chunk := by omega
+        rw [hgot]
+        by_cases hdone : len + min (n - len) chunk ≥ n
+        · -- the last chunk: the recursive call returns at once whatever the fuel
+          have : (growRead chunk fuel n p (len + min (n - len) chunk)
+              (if cap - len < min (n - len) chunk then 2 * cap + min (n - len) chunk else cap)).1
+              = len + min (n - len) chunk := by
+            cases fuel with
+            | zero => simp [growRead]
+            | succ f => unfold growRead; simp [hdone]
+          rw [this]
+          omega
+        · have hmin : min (n - len) chunk = chunk := by omega
+          rw [hmin] at hdone ⊢
+          have hdiv : (n - (len + chunk)) / chunk + 2 ≤ fuel + 1 := by
+            have : (n - len) / chunk = (n - (len + chunk)) / chunk + 1 := by
+              have h : n - len = (n - (len + chunk)) + chunk := by omega
+              rw [h, Nat.add_div_right _ hc]
+            omega
+          rcases ih (len + chunk) _ (by omega) (by omega) hdiv with h | h
+          · exact h
+          · subst h
+            exfalso
+            have : ∀ x : Nat, ¬ (x + 2 ≤ 0 + 1) := by intro x; omega
+            exact this _ hdiv
+
+/-- **Replaying a torn tail costs memory in proportion to what is there.** Whatever length
+the five bytes taken for an entry header spell (up to 2³²−1), reading the entry from a segment
+that holds `p` more bytes reads exactly `min n p` of them into a buffer that never exceeds
+twice that plus three chunks: a crash cannot make the restart ask for gigabytes. -/
+theorem wal_entry_buffer_bounded (n p : Nat) :
+    let r := growRead (2 ^ 20) (n / 2 ^ 20 + 2) n p 0 0
+    r.1 = min n p ∧ r.2 ≤ 2 * min n p + 3 * 2 ^ 20 := by
+  have hinv := growRead_inv (2 ^ 20) (n / 2 ^ 20 + 2) n p 0 0 (by omega) (by omega) (by omega)
+  have hlen := growRead_len (2 ^ 20) (by decide) (n / 2 ^ 20 + 2) n p 0 0 (by omega) (by omega) (by simp)
+  simp only
+  rcases hlen with h | h
+  · rw [h] at hinv
+    exact ⟨h, hinv.2.2⟩
+  · omega
+
+/-- the reader in /repo reads entries this way and nowhere sizes a buffer by the length field
+(regenerated from the source of `WALSegmentReader.Next` on every run) -/
+theorem gen_wal_length_not_trusted :
+    Gen.C13.walLengthNotTrusted = true ∧ Gen.C13.walReadChunk = 2 ^ 20 := by decide
+
+example : growRead (2 ^ 20) 4098 4294967295 37 0 0 = (37, 1048576) := by decide
+
 theorem gen_wal_entry_types : Gen.C13.walEntryTypes = [1, 2, 3] ∧ Gen.C13.blockTypes = [0, 1, 2, 3, 4] := by decide
 
 /-! ### Non-vacuity (each scheme is reached by a concrete input) -/
